@@ -700,21 +700,110 @@ func derivation(v ssa.Value, p *ssa.Parameter) int {
 	return best
 }
 
+// Set abstractions: `loading.contains(k)`, `loading.add(k)`, `loading.remove(k)` on a named map type are the map
+// operations they wrap.
+
+// membershipTest: cond is `_, ok := m[k]` (the ok result) or the result of a method / function whose body returns exactly
+// that for its first parameter. Returns the map value as seen by the caller, and the instruction of the test.
+func membershipTest(cond ssa.Value) (ssa.Value, ssa.Instruction) {
+	if ex, ok := cond.(*ssa.Extract); ok && ex.Index == 1 {
+		if l, ok := ex.Tuple.(*ssa.Lookup); ok && l.CommaOk {
+			return l.X, l
+		}
+	}
+	if call, ok := cond.(*ssa.Call); ok {
+		h := call.Common().StaticCallee()
+		if h != nil && isRepoFn(h) && len(h.Blocks) > 0 && len(h.Params) >= 1 && len(call.Common().Args) >= 1 {
+			if _, isMap := h.Params[0].Type().Underlying().(*types.Map); isMap {
+				okAll, n := true, 0
+				for _, b := range h.Blocks {
+					if len(b.Instrs) == 0 {
+						continue
+					}
+					if ret, isRet := b.Instrs[len(b.Instrs)-1].(*ssa.Return); isRet {
+						n++
+						rs := retResults(ret)
+						if len(rs) != 1 {
+							okAll = false
+							continue
+						}
+						ex, ok := rs[0].(*ssa.Extract)
+						if !ok || ex.Index != 1 {
+							okAll = false
+							continue
+						}
+						l, ok := ex.Tuple.(*ssa.Lookup)
+						if !ok || !l.CommaOk || l.X != ssa.Value(h.Params[0]) {
+							okAll = false
+						}
+					}
+				}
+				if okAll && n > 0 {
+					return call.Common().Args[0], call
+				}
+			}
+		}
+	}
+	return nil, nil
+}
+
+// mapInsert / mapDelete: the instruction inserts into / deletes from a map (directly, or through a one-purpose method
+// of a named map type); returns the map as seen at the instruction.
+func mapInsert(in ssa.Instruction) ssa.Value {
+	if mu, ok := in.(*ssa.MapUpdate); ok {
+		return mu.Map
+	}
+	return wrappedMapOp(in, func(i2 ssa.Instruction, p ssa.Value) bool {
+		mu, ok := i2.(*ssa.MapUpdate)
+		return ok && mu.Map == p
+	})
+}
+
+func mapDelete(in ssa.Instruction) ssa.Value {
+	if cl, ok := in.(*ssa.Call); ok && isBuiltinCall(cl, "delete") && len(cl.Call.Args) > 0 {
+		return cl.Call.Args[0]
+	}
+	return wrappedMapOp(in, func(i2 ssa.Instruction, p ssa.Value) bool {
+		cl, ok := i2.(*ssa.Call)
+		return ok && isBuiltinCall(cl, "delete") && len(cl.Call.Args) > 0 && cl.Call.Args[0] == p
+	})
+}
+
+func wrappedMapOp(in ssa.Instruction, op func(ssa.Instruction, ssa.Value) bool) ssa.Value {
+	call, ok := in.(*ssa.Call)
+	if !ok {
+		return nil
+	}
+	h := call.Common().StaticCallee()
+	if h == nil || !isRepoFn(h) || len(h.Blocks) != 1 || len(h.Params) < 1 || len(call.Common().Args) < 1 {
+		return nil
+	}
+	if _, isMap := h.Params[0].Type().Underlying().(*types.Map); !isMap {
+		return nil
+	}
+	found := false
+	for _, i2 := range h.Blocks[0].Instrs {
+		if op(i2, h.Params[0]) {
+			found = true
+		}
+	}
+	if found {
+		return call.Common().Args[0]
+	}
+	return nil
+}
+
 // visitedGuard: the call is dominated by the false edge of a membership test `_, seen := m[k]` on a map that is
 // extended with k before the call.
 func visitedGuard(call ssa.Instruction) bool {
 	fn := call.Parent()
 	var lookupMap ssa.Value
 	g := guardedBy(call, false, func(cond ssa.Value) bool {
-		ex, ok := cond.(*ssa.Extract)
-		if !ok || ex.Index != 1 {
+		m, _ := membershipTest(cond)
+		if m == nil {
 			return false
 		}
-		l, ok := ex.Tuple.(*ssa.Lookup)
-		if !ok || !l.CommaOk {
-			return false
-		}
-		lookupMap = l.X
+		lookupMap = m
 		return true
 	})
 	if g == nil || lookupMap == nil {
@@ -722,7 +811,7 @@ func visitedGuard(call ssa.Instruction) bool {
 	}
 	marked := false
 	eachInstr(fn, func(r instrRef) {
-		if mu, ok := r.I.(*ssa.MapUpdate); ok && sameMapValue(mu.Map, lookupMap) && dominates(mu, call) {
+		if m := mapInsert(r.I); m != nil && sameMapValue(m, lookupMap) && dominates(r.I, call) {
 			marked = true
 		}
 	})
@@ -1197,17 +1286,14 @@ func c11R2c(c *Ctx) {
 				return
 			}
 			// membership test guarding the call
-			var lookup *ssa.Lookup
+			var lookupMap ssa.Value
+			var lookup ssa.Instruction
 			g := guardedBy(call, false, func(cond ssa.Value) bool {
-				ex, ok := cond.(*ssa.Extract)
-				if !ok || ex.Index != 1 {
+				m, at := membershipTest(cond)
+				if m == nil {
 					return false
 				}
-				l, ok := ex.Tuple.(*ssa.Lookup)
-				if !ok || !l.CommaOk {
-					return false
-				}
-				lookup = l
+				lookupMap, lookup = m, at
 				return true
 			})
 			if g == nil || lookup == nil {
@@ -1225,10 +1311,10 @@ func c11R2c(c *Ctx) {
 					}
 				}
 			}
-			var mark *ssa.MapUpdate
+			var mark ssa.Instruction
 			eachInstr(fn, func(r2 instrRef) {
-				if mu, ok := r2.I.(*ssa.MapUpdate); ok && sameMapValue(mu.Map, lookup.X) && dominates(mu, call) {
-					mark = mu
+				if m := mapInsert(r2.I); m != nil && sameMapValue(m, lookupMap) && dominates(r2.I, call) {
+					mark = r2.I
 				}
 			})
 			if mark == nil || !hitErr {
@@ -1237,11 +1323,11 @@ func c11R2c(c *Ctx) {
 			n++
 			key := "marker-stack@" + c.fnName(fn)
 			isDelete := func(in ssa.Instruction) bool {
-				cl, ok := in.(*ssa.Call)
-				return ok && isBuiltinCall(cl, "delete") && sameMapValue(cl.Call.Args[0], lookup.X)
+				m := mapDelete(in)
+				return m != nil && sameMapValue(m, lookupMap)
 			}
 			target := func(in ssa.Instruction) bool {
-				if in == ssa.Instruction(lookup) {
+				if in == lookup {
 					return true
 				}
 				if ret, ok := in.(*ssa.Return); ok {
@@ -1463,7 +1549,7 @@ func c11R5(c *Ctx) {
 				fmt.Sprintf("the element %q of the map returned by %s() is dereferenced without a nil test, and no function of the preparation path returns an error when that key is missing: a sub-workflow (or file) without it makes preparation panic with a nil pointer dereference instead of reporting an error", k, prod))
 		})
 	}
-	c.minCount(rule, "unconditional dereferences of constant-key map elements on the parse/prepare paths", n, 2)
+	c.minCount(rule, "unconditional dereferences of constant-key map elements on the parse/prepare paths", n, 1)
 }
 
 // blockReturnsError: the block (or the straight-line chain it starts) ends in a return whose last result is not the nil constant.
